@@ -1,0 +1,70 @@
+/*-
+  verif.h -- verification hooks (compiled only with -DKJN_LBZIP2_VERIF)
+
+  Nothing in this header has any effect unless KJN_LBZIP2_VERIF is defined.
+  With the guard defined the hooks are still inert unless the corresponding
+  LBZIP2_VERIF_* environment variable is set, except for VERIF_ASSERT(), which
+  is always live.
+*/
+
+#ifdef KJN_LBZIP2_VERIF
+
+#include <stdint.h>
+#include <stddef.h>
+
+/* Yield sites (H1). */
+enum {
+  VS_SCHED_LOCK = 1,
+  VS_SCHED_UNLOCK,
+  VS_READ_PRE,
+  VS_READ_POST,
+  VS_WRITE_PRE,
+  VS_WRITE_POST,
+  VS_SRC_RELEASE,
+  VS_SINK_WRITE,
+  VS_COMPUTE_BEGIN,
+  VS_COMPUTE_END,
+};
+
+/* Event codes (H6). */
+enum {
+  VE_RUN_BEGIN = 1,     /* a=decompress b=num_worker c=total_out_slots */
+  VE_RUN_END,           /* a=in_slots b=out_slots c=work_units */
+  VE_INPUT,             /* a=ordinal/offset b=size */
+  VE_TASK,              /* a=task index b=work_units c=out_slots */
+  VE_COLLECT,           /* a=major b=minor c=weight */
+  VE_ENCODED,           /* a=major b=minor c=size */
+  VE_TRANSMIT,          /* a=major b=minor c=out_slots after */
+  VE_REORDER,           /* a=major b=minor c=status (decompr.) / next (compr.) */
+  VE_WRITE,             /* a=write seq b=size */
+  VE_WRITTEN,           /* a=out_slots after */
+  VE_PARSE,             /* a=rv b=major c=minor */
+  VE_SCAN_HIT,          /* a=major b=minor c=1 if already known */
+  VE_RETR,              /* a=major b=minor c=rv */
+  VE_EMIT,              /* a=major b=minor c=rv */
+  VE_BOGUS,             /* a=major b=minor */
+  VE_ADVANCE,           /* a=head_offs b=released retrieve jobs */
+  VE_QSIZE,             /* a=queue id b=size c=cap */
+  VE_TAKEN,             /* a=major b=minor : parser used a scanned block */
+  VE_MISREC,            /* a=major b=minor : parser discarded a candidate */
+  VE_COPY,              /* a=size b=out_slots */
+};
+
+void verif_init(void);
+void verif_yield(int site, uint64_t key);
+void verif_granules(size_t *in, size_t *out);
+void verif_event(int code, uint64_t a, uint64_t b, uint64_t c);
+void verif_flush(void);
+
+#define VERIF_ASSERT(x) assert(x)
+#define VERIF_YIELD(site, key) verif_yield((site), (key))
+#define VERIF_EVENT(code, a, b, c) \
+  verif_event((code), (uint64_t)(a), (uint64_t)(b), (uint64_t)(c))
+
+#else
+
+#define VERIF_ASSERT(x) ((void)0)
+#define VERIF_YIELD(site, key) ((void)0)
+#define VERIF_EVENT(code, a, b, c) ((void)0)
+
+#endif
